@@ -1,7 +1,7 @@
 #!/usr/bin/env python3
 """Regenerates /verif/MANIFEST.json (kept in a script so that the 18 entries stay consistent)."""
 import json, subprocess
-hooks_commit = "72e60c6"
+hooks_commits = ["72e60c6", "61a7b06", "f3c159b"]
 C = {
  "C01": ("model_checking", "E1 program-space exploration", "every symbol program of prefix-closed spaces setup.Sigma^<=d (11-symbol automaton alphabet over two setups), a length x distance sweep over every length 2..273 and both ends of every distance slot up to 2^20 (2^26 thorough), every wrap-straddling program on dictionaries 1..6 (8), copies across the 4096 wrap with header dictionary 0/1/4095/4096, and all 225 lc/lp/pb settings, encoded by an independent reference encoder and decoded by lzma-rs in six presentations (known size, marker, provided size, 5-byte header, raw decoder with minimal dictionaries); exact output and exact consumption required", "reference encoder/LZ77 interpreter (bound to liblzma in setup); programs deeper than the stated depth and distances above 2^26 are outside the bound", "5.C01"),
  "C02": ("model_checking", "E1 over chunk programs", "every sequence of <= 3 (4) chunk kinds out of 84 (uncompressed with/without dictionary reset; LZMA chunks of every reset class x 4 property sets x 8 programs that depend on carried rep/state/probabilities/dictionary), every ordered pair of the 75 legal lc/lp/pb triples as a property change, and the 64 KiB / 2 MiB / control-bit size extremes, written by the reference LZMA2 writer and decoded by lzma2_decompress, raw::Lzma2Decoder and xz_decompress", "reference LZMA2/XZ writers bound to liblzma; well-formedness = liblzma's rules", "5.C02"),
@@ -10,7 +10,7 @@ C = {
  "C05": ("model_checking", "E2 explicit-state exploration of the real Stream object with exact state merging", "for each corpus input the complete graph of (offset, fingerprint of the whole live decoder state, sink) under write(&x[o..o+k]) for every k: all 2^(n-1) chunkings and all empty writes of that input; finish() probed in every node against the one-shot decoder on x[..offset] (all truncations for free)", "fingerprint hook complete (merges audited whenever dead bytes differ); inputs are a corpus (valid streams of every symbol shape incl. long symbols, substitutions at every position, trailing bytes, liblzma files), the chunking dimension is complete", "5.C05"),
  "C06": ("fault_enumeration", "E5 exhaustive single-fault enumeration with CRC repair", "every single-bit flip, every listed field x value domain with all enclosing CRCs recomputed, every truncation of reference-written files; verdict expected from a strict independent parser", "strict parser encodes exactly the listed checks; multi-field corruptions not enumerated", "5.C06"),
  "C07": ("exploration", "E5 neighbourhood/grid enumeration + E2 stream graphs under panic/hang/heap monitors", "all short payloads after 13 header contexts, every truncation/substitution/splice of the corpus, every XZ field extreme with CRC repair, raw-decoder parameter grids, all Options shapes, and the streaming decoder over every chunking of mutated streams; overflow-checked build", "'every byte string' is covered inside these neighbourhoods and short-string cubes only", "5.C07"),
- "C08": ("exploration", "E5 full options grid", "12 programs x marker x 7 header size values x all option/size combinations x trailing x {one-shot, Stream whole, Stream bytewise} x 3 lc/lp/pb: 11,196 cells, implications only where the statement fixes the outcome", "known finding K1 matched by call-site signature", "5.C08"),
+ "C08": ("exploration", "E5 full options grid", "12 programs x marker x 7 header size values x all option/size combinations x trailing x {one-shot, Stream whole, Stream bytewise} x 3 lc/lp/pb: 11,196 cells, implications only where the statement fixes the outcome", "header consumption 13/13/5 is observed through the payload only decoding at the right offset", "5.C08"),
  "C09": ("model_checking", "E4 window state-space closure + E1 invalid programs", "breadth-first closure of the real LzCircularBuffer (dict 1..4 (5), histories <= 2*dict+3 over {a,b}) and LzAccumBuffer (histories <= 8 (10)) with every distance probed in every state against a Vec<u8> model, plus valid-prefix + one out-of-window copy programs through all decoders", "window hooks re-export the real types; larger dictionaries covered only through E1", "5.C09"),
  "C10": ("model_checking", "E4 window closure for every limit + E2 stream graphs + allocator measurement", "every limit m in 0..dict+1 on the closed window state space, raw decoder dict 1..6 (8) x every m, public API around need/4095/4096/4097, Stream over all chunkings at need-1/need/need+1, peak-heap delta bound", "Vec growth at most doubles", "5.C10"),
  "C11": ("exploration", "E3 reader kinds x trailers over E1 payload spaces", "every size-bounded LZMA program of the automaton scope up to depth 2 (3) and every LZMA2 sequence up to depth 2 x 5 trailers x reader kinds (slice, BufReader 1..4 (8) and 8192, bytewise, cut); converse for marker-terminated .lzma and .xz", "reader position of BufReader computed as bytes pulled minus bytes still buffered", "5.C11"),
@@ -43,13 +43,13 @@ m = {
    "guard": "cargo feature verif_hooks (off by default)",
    "enable": "the harness crate /verif/mc depends on /repo by path with features stream,raw_decoder,verif_hooks; every ./check invocation runs cargo build, which rebuilds lzma-rs from /repo's working tree",
    "baseline_off_cmd": "cd /repo && cargo test --workspace --no-fail-fast --offline",
-   "source_commits": [hooks_commit],
+   "source_commits": hooks_commits,
    "add_only": True,
  },
  "engines": [{"name": "lzmc", "path": "/verif/mc", "serves_properties": sorted(C), "kind_free_text": "purpose-built explicit-state / stateless bounded-exhaustive explorer in Rust running the real lzma-rs code against reference models (E1 program spaces, E2 history/state graphs with exact fingerprint merging, E3 environment deviations, E4 window closure, E5 neighbourhood/grid enumeration)"}],
  "checks": checks,
  "not_applicable": [],
- "notes": "exit 0 = held on everything explored (KNOWN-FINDING lines for listed findings), 1 = VIOLATION line(s), 2 = machinery error (build failure, model not bound, unsound merge, non-deterministic replay) - never a verdict. Known findings: /verif/known_findings.json. Seeded breakage kept under /verif/seeded/.",
+ "notes": "exit 0 = held on everything explored (KNOWN-FINDING lines for listed findings), 1 = VIOLATION line(s), 2 = machinery error (build failure, model not bound, unsound merge, non-deterministic replay) - never a verdict. Known findings: /verif/known_findings.json (none open; five defects fixed). Seeded breakage kept under /verif/seeded/.",
 }
 json.dump(m, open('/verif/MANIFEST.json', 'w'), indent=1)
 print("wrote MANIFEST.json with", len(checks), "checks")
